@@ -19,6 +19,11 @@ Proof.
   fold (count_pages (map CPage tk)). rewrite count_pages_pages. reflexivity.
 Qed.
 
+(* any assembler options c, for a stream that never calls KeepFrom *)
+Section FCfg.
+Variable c : cfg.
+Hypothesis Hk : c_keep c = [].
+
 (* ---------------------------------------------------------------- sendToConnection for a queued page *)
 Lemma send_page : forall S i w0 hi h used pos o1 p sid nc,
   h_saved h = [] -> h_next h = sq i pos -> pg S i o1 p -> pos <= o1 ->
@@ -26,7 +31,7 @@ Lemma send_page : forall S i w0 hi h used pos o1 p sid nc,
   w0 <= pos -> 0 <= pos -> zlen S < hi -> hi <= HI w0 ->
   exists e' tk q1,
     o1 + plen p <= e' /\ e' <= zlen S /\ qok S i (e' + 1) hi q1 /\
-    send fixedv cfg0 h used (CPage p) sid nc =
+    send fixedv c h used (CPage p) sid nc =
     mkSres (mkHalf (h_pages h - (1 + zlen tk)) [] q1 (h_next h) (h_seen h) (h_closed h))
            (used - 0 - (1 + zlen tk) + 0) (sq i e')
            (last_end (CPage p :: map CPage tk))
@@ -47,7 +52,7 @@ Proof.
   assert (Hcat : pbytes p ++ sub S (o1 + plen p) (e' - (o1 + plen p)) = sub S o1 (e' - o1)).
   { rewrite Hpb at 1. rewrite sub_app by lia. f_equal. lia. }
   rewrite Hcat. rewrite zlen_sub by lia.
-  unfold keep_choice, cfg0. cbn [c_keep].
+  unfold keep_choice. rewrite Hk.
   replace (-1 <? 0) with true by reflexivity.
   rewrite firstn_all, skipn_all. cbn [keep_conv].
   rewrite count_pages_cons_page.
@@ -124,12 +129,12 @@ Qed.
 (* ---------------------------------------------------------------- skipFlush *)
 (* the invariant of C09Stream with the state of the reverse half as a parameter *)
 Definition inv2 (S : list Z) (i pos : Z) (rc : bool) (st : st) : Prop :=
-  s_exists st = true /\ s_cfg st = cfg0 /\ s_rev_closed st = rc /\ h_saved (s_half st) = [] /\
+  s_exists st = true /\ s_cfg st = c /\ s_rev_closed st = rc /\ h_saved (s_half st) = [] /\
   (h_closed (s_half st) = false ->
      h_next (s_half st) = sq i pos /\ qok S i (pos + 1) HIS (h_queue (s_half st))) /\
   0 <= pos <= zlen S.
 
-Lemma inv_inv2 : forall S i pos st, inv S i pos st <-> inv2 S i pos false st.
+Lemma inv_inv2 : forall S i pos st, inv c S i pos st <-> inv2 S i pos false st.
 Proof.
   intros. split.
   - intros [H1 H2 H3 H4 H5 H6]. unfold inv2. auto 10.
@@ -144,7 +149,7 @@ Lemma skip_flush_ok : forall S i pos rc st,
 Proof.
   intros S i pos rc st HS Hinv Hopen.
   destruct Hinv as (Hex & Hcfg & Hrev & Hsv & Hopn & Hpos). destruct (Hopn Hopen) as (Hnx & Hq).
-  destruct st as [c ex h rc0 rs used sid nc]. cbn [s_exists s_cfg s_rev_closed s_half s_rev_seen] in *. subst c ex rc0.
+  destruct st as [c0 ex h rc0 rs used sid nc]. cbn [s_exists s_cfg s_rev_closed s_half s_rev_seen] in *. subst c0 ex rc0.
   destruct h as [pg_ sv q nx seen cl]. cbn [h_saved h_closed h_next h_queue] in *. subst sv cl nx.
   unfold skip_flush. cbn [s_half h_queue].
   destruct q as [|p q'].
@@ -248,9 +253,9 @@ Proof. intros. unfold conn_last_seen. destruct (h_seen (s_half st) <? s_rev_seen
 (* FlushWithOptions{T, TC} with TC not later than the first packet of the connection: nothing is
    closed; what is older than T is handed over with its gaps announced *)
 Lemma flush_opts_ok : forall S i t tc pos st,
-  zlen S < HIS -> inv S i pos st -> tc <= s_rev_seen st ->
+  zlen S < HIS -> inv c S i pos st -> tc <= s_rev_seen st ->
   exists st' ev pos', flush_opts fixedv st t tc = (st', ev, false) /\
-    s_rev_seen st' = s_rev_seen st /\ abs_evs S pos ev pos' /\ inv S i pos' st'.
+    s_rev_seen st' = s_rev_seen st /\ abs_evs S pos ev pos' /\ inv c S i pos' st'.
 Proof.
   intros S i t tc pos st HS Hinv Htc. apply inv_inv2 in Hinv.
   pose proof Hinv as (Hex & Hcfg & Hrev & _).
@@ -285,7 +290,7 @@ Proof.
 Qed.
 
 Lemma flush_all_ok : forall S i pos st,
-  zlen S < HIS -> inv S i pos st ->
+  zlen S < HIS -> inv c S i pos st ->
   exists st' ev pos', flush_all fixedv st = (st', ev, false) /\ abs_evs S pos ev pos'.
 Proof.
   intros S i pos st HS Hinv. apply inv_inv2 in Hinv.
@@ -306,85 +311,189 @@ Proof.
     rewrite He2. exists s2, ([] ++ ev2), pos2. cbn [app]. auto.
 Qed.
 
-(* ---------------------------------------------------------------- histories with flushes *)
+(* ---------------------------------------------------------------- queueing with a page limit *)
+Lemma abs_evs_tags : forall S pos l, abs_evs S pos (map ETag l) pos.
+Proof. intros S pos. induction l as [|x t IH]; cbn [map abs_evs]; [reflexivity|exact IH]. Qed.
+
+(* a segment beyond the delivery point is queued; when a page limit is reached the first queued
+   page and what is contiguous with it are handed over, the gap in front announced as a skip; the
+   FIN of the queued segment does not move nextSeq *)
+Lemma assemble_queue_gen : forall S i pos st o n fin rst ts,
+  zlen S < HIS -> inv c S i pos st -> h_closed (s_half st) = false ->
+  pos < o -> 0 <= n -> o + n <= zlen S ->
+  exists st' ev pos', assemble fixedv st (mkSeg (sq i o) false fin rst false ts (sub S o n)) = (st', ev, false) /\
+    s_rev_seen st' = s_rev_seen st /\ abs_evs S pos ev pos' /\ inv c S i pos' st'.
+Proof.
+  intros S i pos st o n fin rst ts HS Hinv Hopen Ho Hn HoS.
+  destruct Hinv as [Hex Hcfg Hrev Hsv Hop Hpos]. destruct (Hop Hopen) as (Hnx & Hq).
+  destruct st as [c0 ex h rc rs used sid nc]. cbn [s_exists s_cfg s_rev_closed s_half] in *. subst c0 ex rc.
+  destruct h as [pg_ sv q nx seen cl]. cbn [h_saved h_closed h_next h_queue] in *. subst sv cl nx.
+  unfold assemble. cbn [s_exists s_half s_cfg s_used s_sid s_ncalls s_rev_closed s_rev_seen
+                        h_pages h_saved h_queue h_next h_seen h_closed
+                        g_seq g_syn g_fin g_rst g_force g_ts g_bytes].
+  rewrite sq_not_invalid. cbn [v_syn fixedv andb].
+  unfold diffv. cbn [v_diff fixedv].
+  rewrite diff_sq by (unfold HIS, HALFW in *; lia).
+  replace (o - pos >? 0) with true by lia.
+  cbn [set_next h_pages h_saved h_queue h_next h_seen h_closed].
+  set (r := check_overlap fixedv q (sub S o n) (sq i o) ts (rst || fin) true).
+  destruct (check_overlap_queue S i 0 (pos + 1) HIS q o n ts (rst || fin)) as (Hp & Hq');
+    try lia; try assumption; try apply HIS_HI.
+  fold r in Hp, Hq'. rewrite Hp.
+  destruct (limit_hit c (pg_ - c2_rel r + c2_added r) (used - c2_rel r + c2_added r)).
+  2:{ eexists. eexists. exists pos. split; [reflexivity|]. split; [reflexivity|]. split.
+      - cbn [app]. apply abs_evs_tags.
+      - constructor; cbn [s_exists s_cfg s_rev_closed s_half h_saved h_closed h_next h_queue]; try reflexivity; try lia.
+        intros _. split; [reflexivity|assumption]. }
+  destruct (c2_queue r) as [|p q'] eqn:Eq.
+  { eexists. eexists. exists pos. split; [reflexivity|]. split; [reflexivity|]. split.
+    - cbn [app]. apply abs_evs_tags.
+    - constructor; cbn [s_exists s_cfg s_rev_closed s_half h_saved h_closed h_next h_queue]; try reflexivity; try lia.
+      intros _. split; [reflexivity|]. cbn [qok]. unfold HIS, HALFW in *. lia. }
+  cbn [qok] in Hq'. destruct Hq' as (o1 & Ho1 & Ho1e & Hpg & Hq1').
+  unfold send_st. cbn [s_cfg s_sid s_ncalls s_exists s_rev_closed s_rev_seen].
+  destruct (send_page S i 0 HIS
+              (mkHalf (pg_ - c2_rel r + c2_added r) [] q' (sq i pos) (if seen <? ts then ts else seen) false)
+              (used - c2_rel r + c2_added r) pos o1 p sid nc)
+    as (e' & tk & q1 & He1 & He2 & Hq1 & Heq);
+    cbn [h_saved h_next h_queue]; try reflexivity; try lia; try assumption; try apply HIS_HI.
+  rewrite Heq. cbn [sr_panic sr_end sr_half sr_used sr_next sr_ev h_pages h_saved h_queue h_next h_seen h_closed].
+  pose proof Hpg as (Hp1 & Hpl & HpS & Hpq & Hpb).
+  assert (Habs : forall en, abs_evs S pos
+            ([] ++ [] ++ map ETag (c2_tags r) ++
+             ETag 12 :: [ESG sid (sub S o1 (e' - o1)) false en (o1 - pos) (e' - o1) 0]) e').
+  { intros en. cbn [app]. eapply abs_evs_app; [apply abs_evs_tags|].
+    cbn [abs_evs]. rewrite zlen_sub by lia.
+    replace (pos + (o1 - pos)) with o1 by lia. replace (o1 + (e' - o1)) with e' by lia.
+    repeat split; try lia; reflexivity. }
+  rewrite andb_false_r.
+  destruct (last_end (CPage p :: map CPage tk)) eqn:Eend.
+  - unfold close_c2s. cbn [s_half s_rev_closed s_cfg s_exists s_rev_seen s_used s_sid s_ncalls
+                          h_pages h_saved h_queue h_next h_seen h_closed].
+    rewrite sq_not_invalid.
+    eexists. eexists. exists e'. split; [reflexivity|]. split; [reflexivity|].
+    split; [rewrite app_nil_r; apply Habs|].
+    constructor; cbn [s_exists s_cfg s_rev_closed s_half set_half set_next h_saved h_closed h_next h_queue];
+      try reflexivity; try lia; try (intros Hc; discriminate).
+  - rewrite sq_not_invalid.
+    eexists. eexists. exists e'. split; [reflexivity|]. split; [reflexivity|].
+    split; [apply Habs|].
+    constructor; cbn [s_exists s_cfg s_rev_closed s_half set_half set_next h_saved h_closed h_next h_queue];
+      try reflexivity; try lia. intros _. split; [reflexivity|assumption].
+Qed.
+
+End FCfg.
+
+(* ---------------------------------------------------------------- histories with flushes and limits *)
 Definition mid_hop (ts0 : Z) (h : hop) : bool :=
   match h with
   | HSyn _ _ | HData _ _ _ _ _ => true
   | HFlush _ tc => tc <=? ts0          (* cannot close the connection: TC not after its first packet *)
+  | HCfg _ _ => true                   (* the page limits may change at any time *)
   | _ => false
   end.
 
-Definition clean_at_segs (hs : list hop) (tr : list (list event * Z)) : Prop :=
-  Forall2 (fun h x => seg_hop h = true -> ev_clean (fst x)) hs tr.
-
-Lemma step_mid : forall S i ts0 pos st h,
-  zlen S < HIS -> inv S i pos st -> s_rev_seen st = ts0 -> mid_hop ts0 h = true -> hop_okb S h = true ->
-  exists st' ev pos', step fixedv st (op_of S i h) = (st', ev, false) /\
-    s_rev_seen st' = ts0 /\ abs_evs S pos ev pos' /\ inv S i pos' st' /\ (seg_hop h = true -> ev_clean ev).
+Lemma inv_set_cfg : forall c S i pos st a b,
+  inv c S i pos st ->
+  inv (mkCfg a b (c_keep c)) S i pos
+      (mkSt (mkCfg a b (c_keep (s_cfg st))) (s_exists st) (s_half st) (s_rev_closed st) (s_rev_seen st)
+            (s_used st) (s_sid st) (s_ncalls st)).
 Proof.
-  intros S i ts0 pos st h HS Hinv Hrs Hmid Hok.
-  destruct (seg_hop h) eqn:Hseg.
-  - destruct (step_hop S i pos st h HS Hinv Hseg Hok) as (st' & ev & pos' & He & Hr & Hp & Hi & Hn & Hc).
-    exists st', ev, pos'. split; [exact He|]. split; [congruence|].
-    pose proof (i_pos _ _ _ _ Hi). pose proof (i_pos _ _ _ _ Hinv).
-    split; [|split; [exact Hi|intros _; exact Hc]].
-    replace pos' with (pos + (pos' - pos)) by lia.
-    apply clean_to_abs; try assumption; lia.
-  - destruct h as [| | | |t tc|]; try discriminate. cbn [mid_hop op_of step] in *.
-    destruct (flush_opts_ok S i t tc pos st HS Hinv) as (st' & ev & pos' & He & Hr & Ha & Hi); [lia|].
-    exists st', ev, pos'. split; [exact He|]. split; [congruence|]. split; [exact Ha|]. split; [exact Hi|].
-    intros Hc; discriminate.
+  intros c S i pos st a b [H1 H2 H3 H4 H5 H6].
+  constructor; cbn [s_exists s_cfg s_rev_closed s_half]; try assumption. rewrite H2. reflexivity.
+Qed.
+
+Lemma step_mid : forall c S i ts0 pos st h,
+  c_keep c = [] ->
+  zlen S < HIS -> inv c S i pos st -> s_rev_seen st = ts0 -> mid_hop ts0 h = true -> hop_okb S h = true ->
+  exists c' st' ev pos', step fixedv st (op_of S i h) = (st', ev, false) /\ c_keep c' = [] /\
+    s_rev_seen st' = ts0 /\ abs_evs S pos ev pos' /\ inv c' S i pos' st'.
+Proof.
+  intros c S i ts0 pos st h Hk HS Hinv Hrs Hmid Hok.
+  destruct h as [a b| |n ts|o n fin rst ts|t tc|]; try discriminate; cbn [mid_hop op_of step hop_okb] in *.
+  - (* options *)
+    eexists. eexists. eexists. exists pos. split; [reflexivity|]. split; [|split; [|split]].
+    2: exact Hrs. 2: cbn [abs_evs]; reflexivity. 2: apply inv_set_cfg; exact Hinv. exact Hk.
+  - (* SYN again *)
+    destruct (h_closed (s_half st)) eqn:Hcl.
+    + destruct (assemble_closed c S i pos st (mkSeg (i mod M32) true false false false ts (sub S 0 n)) Hinv Hcl) as (st' & He & Hr & Hi).
+      exists c, st', [], pos. split; [exact He|]. split; [exact Hk|]. split; [congruence|].
+      split; [cbn [abs_evs]; reflexivity|exact Hi].
+    + pose proof (i_pos _ _ _ _ _ Hinv).
+      destruct (assemble_inorder c Hk S i pos st (i mod M32) true 0 n false false ts) as
+        (st' & ev & pos' & He & Hr & Hp & Hi & Hn & Hc); try assumption; try lia;
+        try apply syn_seq; try (intros; discriminate).
+      exists c, st', ev, pos'. split; [exact He|]. split; [exact Hk|]. split; [congruence|].
+      pose proof (i_pos _ _ _ _ _ Hi). split; [|exact Hi].
+      replace pos' with (pos + (pos' - pos)) by lia. apply clean_to_abs; try assumption; lia.
+  - destruct (h_closed (s_half st)) eqn:Hcl.
+    + destruct (assemble_closed c S i pos st (mkSeg (sq i o) false fin rst false ts (sub S o n)) Hinv Hcl) as (st' & He & Hr & Hi).
+      exists c, st', [], pos. split; [exact He|]. split; [exact Hk|]. split; [congruence|].
+      split; [cbn [abs_evs]; reflexivity|exact Hi].
+    + pose proof (i_pos _ _ _ _ _ Hinv).
+      destruct (Z.le_gt_cases o pos) as [Hle|Hgt].
+      * destruct (assemble_inorder c Hk S i pos st (sq i o) false o n fin rst ts) as
+          (st' & ev & pos' & He & Hr & Hp & Hi & Hn & Hc); try assumption; try lia; try reflexivity.
+        { intros Hf. subst fin. cbn [negb orb] in Hok. lia. }
+        exists c, st', ev, pos'. split; [exact He|]. split; [exact Hk|]. split; [congruence|].
+        pose proof (i_pos _ _ _ _ _ Hi). split; [|exact Hi].
+        replace pos' with (pos + (pos' - pos)) by lia. apply clean_to_abs; try assumption; lia.
+      * destruct (assemble_queue_gen c Hk S i pos st o n fin rst ts) as
+          (st' & ev & pos' & He & Hr & Ha & Hi); try assumption; try lia.
+        exists c, st', ev, pos'. split; [exact He|]. split; [exact Hk|]. split; [congruence|]. auto.
+  - destruct (flush_opts_ok c Hk S i t tc pos st HS Hinv) as (st' & ev & pos' & He & Hr & Ha & Hi); [lia|].
+    exists c, st', ev, pos'. split; [exact He|]. split; [exact Hk|]. split; [congruence|]. auto.
 Qed.
 
 Lemma run_mids_tail : forall S i ts0 tail,
   tail = [] \/ tail = [HFlushAll] ->
-  forall mids pos st,
-  zlen S < HIS -> inv S i pos st -> s_rev_seen st = ts0 ->
+  forall mids c pos st,
+  c_keep c = [] ->
+  zlen S < HIS -> inv c S i pos st -> s_rev_seen st = ts0 ->
   forallb (mid_hop ts0) mids = true -> forallb (hop_okb S) mids = true ->
   let tr := run_trace fixedv st (map (op_of S i) (mids ++ tail)) in
   length tr = length (mids ++ tail) /\
-  (exists pos', abs_evs S pos (concat (map fst tr)) pos') /\ clean_at_segs (mids ++ tail) tr.
+  (exists pos', abs_evs S pos (concat (map fst tr)) pos').
 Proof.
-  intros S i ts0 tail Htail. induction mids as [|h t IH]; intros pos st HS Hinv Hrs Hmid Hok.
+  intros S i ts0 tail Htail. induction mids as [|h t IH]; intros c pos st Hk HS Hinv Hrs Hmid Hok.
   - cbn [app]. destruct Htail as [Ht|Ht]; subst tail; cbn [map run_trace length].
-    + split; [reflexivity|]. split; [exists pos; reflexivity|constructor].
+    + split; [reflexivity|]. exists pos; reflexivity.
     + cbn [op_of step].
-      destruct (flush_all_ok S i pos st HS Hinv) as (st' & ev & pos' & He & Ha). rewrite He.
+      destruct (flush_all_ok c Hk S i pos st HS Hinv) as (st' & ev & pos' & He & Ha). rewrite He.
       cbn [length map fst concat]. rewrite app_nil_r.
-      split; [reflexivity|]. split; [exists pos'; exact Ha|].
-      constructor; [intros Hc; discriminate|constructor].
+      split; [reflexivity|]. exists pos'; exact Ha.
   - cbn [forallb] in Hmid, Hok. apply andb_prop in Hmid. apply andb_prop in Hok.
     destruct Hmid as (Hm1 & Hm2). destruct Hok as (Ho1 & Ho2).
-    destruct (step_mid S i ts0 pos st h HS Hinv Hrs Hm1 Ho1) as (st' & ev & pos1 & He & Hr & Ha & Hi & Hc).
-    destruct (IH pos1 st' HS Hi Hr Hm2 Ho2) as (Hl & (pos' & Ha') & Hcl).
+    destruct (step_mid c S i ts0 pos st h Hk HS Hinv Hrs Hm1 Ho1) as (c' & st' & ev & pos1 & He & Hk' & Hr & Ha & Hi).
+    destruct (IH c' pos1 st' Hk' HS Hi Hr Hm2 Ho2) as (Hl & (pos' & Ha')).
     cbn [app map run_trace]. rewrite He. cbn [length map fst concat].
-    split; [rewrite Hl; reflexivity|]. split.
-    + exists pos'. eapply abs_evs_app; eauto.
-    + constructor; [exact Hc|exact Hcl].
+    split; [rewrite Hl; reflexivity|].
+    exists pos'. eapply abs_evs_app; eauto.
 Qed.
 
-(* C09_flush_partial: SYN first, then consistent segments in any order interleaved with
-   FlushWithOptions calls that cannot close the connection, optionally FlushAll at the end; no page
-   limit, no KeepFrom.  The run does not stop; reading the events in order from offset 0, every
-   ScatterGather carries no saved bytes and a skip >= 0, and its bytes are exactly S at the
-   absolute offset reached by adding up everything delivered and skipped before; a step that is
-   a segment has only skip 0. *)
-Theorem flush_partial : forall S i n0 ts0 mids tail,
+(* segments never release data beyond a gap when no page limit is configured: see C09Stream
+   (stream_partial, ev_clean).  With limits, a queued segment may. *)
+
+(* C09_flush_partial: any page limits (set first, possibly changed later), SYN first, then
+   consistent segments in any order interleaved with FlushWithOptions calls that cannot close
+   the connection, optionally FlushAll at the end; no KeepFrom.  The run does not stop; reading the
+   events in order from offset 0, every ScatterGather carries no saved bytes and a skip >= 0, and its
+   bytes are exactly S at the absolute offset reached by adding up everything delivered and skipped
+   before. *)
+Theorem flush_partial : forall S i a b n0 ts0 mids tail,
   zlen S < HIS -> 0 <= n0 <= zlen S -> tail = [] \/ tail = [HFlushAll] ->
   forallb (mid_hop ts0) mids = true -> forallb (hop_okb S) mids = true ->
-  let hs := HSyn n0 ts0 :: mids ++ tail in
+  let hs := HCfg a b :: HSyn n0 ts0 :: mids ++ tail in
   let tr := run_hist fixedv S i hs in
-  length tr = length hs /\
-  (exists pos, abs_evs S 0 (concat (map fst tr)) pos) /\ clean_at_segs hs tr.
+  length tr = length hs /\ exists pos, abs_evs S 0 (concat (map fst tr)) pos.
 Proof.
-  intros S i n0 ts0 mids tail HS Hn0 Htail Hmid Hok hs tr. subst hs tr.
-  unfold run_hist. cbn [map op_of run_trace step].
-  destruct (assemble_first_syn S i n0 ts0 HS Hn0) as (st' & ev & He & Hr & Hi & Hn & Hc).
+  intros S i a b n0 ts0 mids tail HS Hn0 Htail Hmid Hok hs tr. subst hs tr.
+  unfold run_hist. cbn [map op_of run_trace step init s_cfg c_keep s_exists s_half s_rev_closed s_rev_seen s_used s_sid s_ncalls].
+  destruct (assemble_first_syn (mkCfg a b []) eq_refl S i n0 ts0 HS Hn0) as (st' & ev & He & Hr & Hi & Hn & Hc).
   rewrite He.
-  destruct (run_mids_tail S i ts0 tail Htail mids n0 st' HS Hi Hr Hmid Hok) as (Hl & (pos' & Ha) & Hcl).
-  cbn [length map fst concat]. split; [rewrite Hl; reflexivity|]. split.
-  - exists pos'.
-    assert (Hx : abs_evs S 0 ev (0 + n0)) by (apply clean_to_abs; try assumption; lia).
-    rewrite Z.add_0_l in Hx. eapply abs_evs_app; [exact Hx|exact Ha].
-  - constructor; [intros _; exact Hc|exact Hcl].
+  destruct (run_mids_tail S i ts0 tail Htail mids (mkCfg a b []) n0 st' eq_refl HS Hi Hr Hmid Hok) as (Hl & (pos' & Ha)).
+  cbn [length map fst concat app]. split; [rewrite Hl; reflexivity|].
+  exists pos'.
+  assert (Hx : abs_evs S 0 ev (0 + n0)) by (apply clean_to_abs; try assumption; lia).
+  rewrite Z.add_0_l in Hx. eapply abs_evs_app; [exact Hx|exact Ha].
 Qed.
